@@ -262,6 +262,14 @@ def classify_store(fn: ast.FunctionDef, st: ast.AST, target: ast.AST, rec: str, 
     # flag := True
     if isinstance(value, ast.Constant) and value.value is True:
         return "flag", tname
+    # c[k] = <constant> reached only when c holds nothing under k: `c.setdefault(k, <constant>)` spelled as a test and a
+    # store (the initial value of a counter entry); absence is decided on the CFG - every path to the store passes an
+    # edge that guarantees it
+    if isinstance(target, ast.Subscript) and isinstance(value, ast.Constant) and isinstance(st, (ast.Assign, ast.AnnAssign)):
+        g0 = _cfg_of(fn)
+        ids = g0.nodes_for(st)
+        if ids and not (set(ids) & set(_reach_without_absence(fn, g0, target.value, target.slice))):
+            return "create-if-absent", tname
     # min/max merge: guarded by (x is None or v < x) / (v > x)
     field = dotted_name(target)
     vname = dotted_name(value) if value is not None else None
@@ -1005,6 +1013,63 @@ def _is_none(e: ast.AST) -> bool:
     return isinstance(e, ast.Constant) and e.value is None
 
 
+def _reach_without_absence(fn: ast.AST, g, cont: ast.AST, key: ast.AST) -> Set[int]:
+    """CFG nodes reachable from the entry without passing an edge that guarantees that ``cont`` holds nothing under
+    ``key`` (`key not in cont`, `cont.get(key) is None`, a local holding the lookup tested for None / falsiness)."""
+    from ..cfg import edges_guaranteeing, reaching_defs
+
+    c, k = ast.unparse(cont), ast.unparse(key)
+    forms = {_d(_expr(s)) for s in (f"{c}.get({k})", f"{c}.get({k}, None)", f"{c}[{k}]")}
+
+    def absent_atom_at(test_node: int):
+        def holds_lookup(e: ast.AST) -> bool:
+            if _d(e) in forms:
+                return True
+            if isinstance(e, ast.NamedExpr):
+                return holds_lookup(e.value)
+            if isinstance(e, ast.Name):
+                defs = reaching_defs(g, e.id, test_node)
+                return bool(defs) and all(isinstance(d.ast, (ast.Assign, ast.AnnAssign)) and d.ast.value is not None and _d(d.ast.value) in forms for d in defs)
+            return False
+
+        def atom(e: ast.AST) -> Optional[bool]:
+            if holds_lookup(e):
+                return False  # truthy lookup result: an entry exists
+            if isinstance(e, ast.Name):
+                # a local that names the outcome of the membership / None test (`known = k in c`): decided on the bound
+                # expression when every definition reaching the test binds the same one and the container is not
+                # stored into in between (the definitions dominate the test with no store on the way)
+                defs = reaching_defs(g, e.id, test_node)
+                vals = [d.ast.value for d in defs if isinstance(d.ast, (ast.Assign, ast.AnnAssign)) and d.ast.value is not None and isinstance((d.ast.targets[0] if isinstance(d.ast, ast.Assign) else d.ast.target), ast.Name)]
+                if defs and len(vals) == len(defs) and len({_d(v) for v in vals}) == 1 and isinstance(vals[0], (ast.Compare, ast.UnaryOp, ast.BoolOp)) and not any(isinstance(x, ast.Name) and x.id == e.id for x in ast.walk(vals[0])):
+                    stores = [x for st_, obj_ in _store_sites(fn) if _root_name(obj_) == _root_name(cont) for x in g.nodes_for(st_ if isinstance(st_, ast.stmt) else stmt_of(st_))]
+                    between = set(g.reach([d.id for d in defs], blocked={test_node})) - {d.id for d in defs}
+                    if not (set(stores) & between):
+                        from ..cfg import edges_guaranteeing as _eg
+                        eg = _eg(vals[0], atom)
+                        return True if eg == {"T"} else False if eg == {"F"} else None
+                return None
+            if isinstance(e, ast.Compare) and len(e.ops) == 1:
+                l, op, r = e.left, e.ops[0], e.comparators[0]
+                if _is_none(r) and holds_lookup(l):
+                    return True if isinstance(op, (ast.Is, ast.Eq)) else False if isinstance(op, (ast.IsNot, ast.NotEq)) else None
+                in_cont = _d(l) == _d(key) and (_d(r) == _d(cont) or _d(r) == _d(_expr(f"{ast.unparse(cont)}.keys()")))
+                if in_cont and isinstance(op, ast.NotIn):
+                    return True
+                if in_cont and isinstance(op, ast.In):
+                    return False
+            return None
+
+        return atom
+
+    blocked: Set[Tuple[int, str]] = set()
+    for n in g.nodes:
+        if n.kind in ("if", "while") and n.part is not None:
+            for lab in edges_guaranteeing(n.part, absent_atom_at(n.id)):
+                blocked.add((n.id, lab))
+    return g.reach([g.entry], blocked_edges=blocked)
+
+
 def check_entries_kept(R: Report, rule: str, fn: ast.FunctionDef, qual: str, rec: str, fresh_methods: Set[str] = frozenset(), model_classes: Optional[Set[str]] = None) -> None:
     """Every store ``CONT[K] = V`` into a container reachable from the aggregator is reached only when the lookup of
     K in CONT found nothing (or writes back what the lookup gave); nothing removes an entry or an element."""
@@ -1068,39 +1133,7 @@ def check_entries_kept(R: Report, rule: str, fn: ast.FunctionDef, qual: str, rec
             R.ok(rule, AGG, qual, norm(stmt), "writes back what the lookup gave, or a new aggregate when it gave nothing", line)
             continue
 
-        def absent_atom_at(test_node: int):
-            def holds_lookup(e: ast.AST) -> bool:
-                if _d(e) in forms:
-                    return True
-                if isinstance(e, ast.NamedExpr):
-                    return holds_lookup(e.value)
-                if isinstance(e, ast.Name):
-                    defs = reaching_defs(g, e.id, test_node)
-                    return bool(defs) and all(isinstance(d.ast, (ast.Assign, ast.AnnAssign)) and d.ast.value is not None and _d(d.ast.value) in forms for d in defs)
-                return False
-
-            def atom(e: ast.AST) -> Optional[bool]:
-                if holds_lookup(e):
-                    return False  # truthy lookup result: an entry exists
-                if isinstance(e, ast.Compare) and len(e.ops) == 1:
-                    l, op, r = e.left, e.ops[0], e.comparators[0]
-                    if _is_none(r) and holds_lookup(l):
-                        return True if isinstance(op, (ast.Is, ast.Eq)) else False if isinstance(op, (ast.IsNot, ast.NotEq)) else None
-                    in_cont = _d(l) == _d(key) and (_d(r) == _d(cont) or _d(r) == _d(_expr(f"{ast.unparse(cont)}.keys()")))
-                    if in_cont and isinstance(op, ast.NotIn):
-                        return True
-                    if in_cont and isinstance(op, ast.In):
-                        return False
-                return None
-
-            return atom
-
-        blocked: Set[Tuple[int, str]] = set()
-        for n in g.nodes:
-            if n.kind in ("if", "while") and n.part is not None:
-                for lab in edges_guaranteeing(n.part, absent_atom_at(n.id)):
-                    blocked.add((n.id, lab))
-        seen = g.reach([g.entry], blocked_edges=blocked)
+        seen = _reach_without_absence(fn, g, cont, key)
         ok = sid not in seen
         R.check(ok, rule, AGG, qual, norm(stmt), f"`{norm(stmt, 70)}` is reached although `{ast.unparse(cont)}` may already hold an aggregate under this key (no test on the way guarantees that the lookup found nothing): the stored aggregate is replaced and everything merged into it so far - flags, attached runs, timestamps - is dropped, so the verdict depends on whether this record was ingested before or after the others", line, path=None if ok else g.path_to(seen, sid), what_ok="stored only when the key is absent")
 
@@ -1266,6 +1299,22 @@ def check_history_free(R: Report, rule: str, fn: ast.FunctionDef, qual: str, sit
 
                 if other in edges_guaranteeing(t.part, atom):
                     continue
+                # a counter split over the two outcomes of a membership test: `c[k] += n` when the entry exists and, on
+                # every path of the other edge, `c[k] = <int>` (the first count) - that store is accepted by the
+                # commutative-stores rule only when every path to it passes an edge guaranteeing absence, so here
+                # it is enough that the record is counted on both edges
+                if kind == "counter" and isinstance(subject, ast.Subscript):
+                    def first_count(nd) -> bool:
+                        a = nd.ast
+                        if nd.kind != "stmt" or not isinstance(a, (ast.Assign, ast.AnnAssign)) or a.value is None:
+                            return False
+                        if not (isinstance(a.value, ast.Constant) and type(a.value.value) is int):
+                            return False
+                        return any(_d(tg) == _d(subject) for tg in (a.targets if isinstance(a, ast.Assign) else [a.target]))
+
+                    starts = [x for x, l in g.succ[t.id] if l == other and not first_count(g.nodes[x])]
+                    if any(first_count(nd) for nd in g.nodes) and not g.must_pass(starts, [g.ret_exit], first_count, skip_labels={"EXC", "BASE"}):
+                        continue
                 bad = (t, lab)
                 break
             if bad:
